@@ -31,7 +31,32 @@ def llm_fn(task, prompt, i):
     return f"R{d}"
 
 
+MUTATING_COLANG = """
+define flow remember topics
+  $user_message = execute verif_remember(text=$user_message)
+"""
+
+
+def _remember_action():
+    from nemoguardrails.actions.actions import ActionResult
+
+    async def verif_remember(text: str = "", context=None):
+        """keeps a list-valued context variable; from the second call on the list is changed in place"""
+        topics = (context or {}).get("topics")
+        if topics is None:
+            return ActionResult(return_value=f"{text} [topics: {text}]", context_updates={"topics": [text]})
+        topics.append(text)
+        return ActionResult(return_value=f"{text} [topics: {'; '.join(topics)}]")
+
+    return verif_remember
+
+
 def build(dialog):
+    if dialog == "mutating":
+        # an input rail whose action keeps a list in the context and changes it in place (conversation data that lives
+        # in the events of the conversation only)
+        return World(MUTATING_COLANG, "rails:\n  input:\n    flows:\n      - remember topics\n  dialog:\n    single_call:\n      enabled: False\n",
+                     actions=[("verif_remember", _remember_action())])
     if dialog == "rails":
         # input / output rails and a dialog action that take context variables as action parameters
         return rw.v1_world(in_order=["in1"], out_order=["out1"], dialog=True, exceptions=False)
@@ -341,7 +366,7 @@ def run(rep, tier):
     import vf.engines.world  # noqa
 
     n_sets = len(conv_sets(False))
-    ts = [(d, i) for d in (False, True, "rails") for i in range(n_sets)]
+    ts = [(d, i) for d in (False, True, "rails", "mutating") for i in range(n_sets)]
     agg = {}
     for r in par.pmap(explore, ts):
         for k, v in r.items():
